@@ -416,6 +416,31 @@ fn decode(src: &mut Src, tier: Tier) -> Case {
 		case.cmds.push((src.index(case.chunks.len().min(4)), cmd));
 		case.cmds.sort_by_key(|(at, _)| *at);
 	}
+	// the streaming sound reads its frames from a ring of 16384 slots: half of the long cases at
+	// playback speed 1 put a callback boundary exactly where the ring's read position sits on its
+	// last slot (16383 frames consumed, or a few frames either side), after a callback of at least
+	// two frames - what is reported and rendered there must not depend on where the ring wraps
+	if long && case.rate == 1.0 && case.sound_rate == case.device_rate && n > 17000 && src.chance(1, 2) {
+		let t = if src.bool() { 16383usize } else { 16375 + src.usize_in(0, 16) };
+		let mut acc = 0usize;
+		let mut j = 0;
+		while j < case.chunks.len() && acc + case.chunks[j] <= t {
+			acc += case.chunks[j];
+			j += 1;
+		}
+		if j < case.chunks.len() && acc < t {
+			let head = t - acc;
+			let tail = case.chunks[j] - head;
+			if head >= 2 {
+				case.chunks[j] = head;
+				case.chunks.insert(j + 1, tail);
+			} else if j > 0 {
+				case.chunks[j - 1] += head;
+				case.chunks[j] = tail;
+			}
+			case.chunks.retain(|k| *k > 0);
+		}
+	}
 	case
 }
 
@@ -424,7 +449,7 @@ impl Property for C09 {
 		"C09"
 	}
 	fn rule(&self) -> &'static str {
-		"each case builds one random audio buffer and plays it three ways side by side as Box<dyn Sound> with identical process() calls: StaticSoundData, and StreamingSoundData over two scripted decoders with different packet splits (1..20000 frames, variable) and seek behaviour (granularity 1..1152, landing up to 2 granules early). Settings: start position, slice, loop region, volume, panning, rate >= 0, fade-in, start delay; command histories of set_volume / set_panning / set_playback_rate / pause / resume / stop with generated tweens at arbitrary chunk boundaries (no seeks). The decoder threads are held at their loop top during each process call and are allowed to fill their ring (or reach the end) before it (hook H2), i.e. the decoder keeps ahead. Oracles: streaming output == static output bit-for-bit, decoder A output == decoder B output, states equal after every chunk, positions within one frame until the sound ends. Non-trivial = loop with multi-frame packets, or a pause, or rate != 1, or more than 16384 frames streamed; distinct = distinct decoded choices."
+		"each case builds one random audio buffer and plays it three ways side by side as Box<dyn Sound> with identical process() calls: StaticSoundData, and StreamingSoundData over two scripted decoders with different packet splits (1..20000 frames, variable) and seek behaviour (granularity 1..1152, landing up to 2 granules early). Settings: start position, slice, loop region, volume, panning, rate >= 0, fade-in, start delay; command histories of set_volume / set_panning / set_playback_rate / pause / resume / stop with generated tweens at arbitrary chunk boundaries (no seeks). The decoder threads are held at their loop top during each process call and are allowed to fill their ring (or reach the end) before it (hook H2), i.e. the decoder keeps ahead; half of the long cases at speed 1 place a callback boundary at (or within 8 frames of) 16383 consumed frames, where the streaming sound's 16384-slot frame ring wraps. Oracles: streaming output == static output bit-for-bit, decoder A output == decoder B output, states equal after every chunk, positions within one frame until the sound ends. Non-trivial = loop with multi-frame packets, or a pause, or rate != 1, or more than 16384 frames streamed; distinct = distinct decoded choices."
 	}
 	fn assumptions(&self) -> Vec<String> {
 		vec![
